@@ -233,9 +233,9 @@ fn check_new(raw: u64, checked: &mut u64, accepted: &mut u64) {
 
 pub fn run(seed: u64, n_random: u64) {
     // ---- boundary-complete part (independent of the seed) ----
-    let mut c = Counters { up: Cnt::default(), down: Cnt::default(), modulo: Cnt::default() };
     let mut nvals = 0usize;
     for e in 0..=16u8 {
+        let mut c = Counters { up: Cnt::default(), down: Cnt::default(), modulo: Cnt::default() };
         let b = boundary(e);
         nvals = nvals.max(b.len());
         for &v in &b {
@@ -245,10 +245,10 @@ pub fn run(seed: u64, n_random: u64) {
                 check_modulo(&mut c.modulo, e, r, v);
             }
         }
+        c.up.emit(&format!("boundary/2^{e}"), "align_up");
+        c.down.emit(&format!("boundary/2^{e}"), "align_down");
+        c.modulo.emit(&format!("boundary/2^{e}"), "align_modulo");
     }
-    c.up.emit("boundary", "align_up");
-    c.down.emit("boundary", "align_down");
-    c.modulo.emit("boundary", "align_modulo");
     out::record("info", &format!("\"boundary_values_per_alignment\":{nvals},\"alignments\":17"));
 
     // ---- Alignment::new ----
